@@ -18,6 +18,7 @@ type MPart struct {
 	Text    string // text / html tag source / call source
 	E       *E     // print expression / plural value
 	Dirs    string // print directives
+	Src     string // text only: the source spelling when it differs from the text ({lb}, {rb} for braces)
 	Cases   []MCase
 	Default []MPart
 }
@@ -30,6 +31,9 @@ type MCase struct {
 func (p MPart) src() string {
 	switch p.Kind {
 	case "text", "html", "call":
+		if p.Src != "" {
+			return p.Src
+		}
 		return p.Text
 	case "print":
 		return "{" + p.E.String() + p.Dirs + "}"
